@@ -190,9 +190,10 @@ def classify(s, F):
     # default_factory neutralised (None) on both sides the site agrees with the model.
     import re
 
-    fac = re.compile(r"defaultdict\(\s*(list|int|dict|None)\s*,")
+    # (the factory may be the only argument: `defaultdict(list)`)
+    fac = re.compile(r"defaultdict\(\s*(list|int|dict|None)\s*(?=[,)])")
     if fac.search(s["old"]) and any(fac.search(str(o)) for o in (s["obs"] if s["op"] != "getitem" else [v for _, v in s["obs"]])):
-        neutral = lambda t: fac.sub("defaultdict(None,", t)  # noqa
+        neutral = lambda t: fac.sub("defaultdict(None", t)  # noqa
         if s["op"] == "getitem":
             obs2 = [(k, neutral(v)) for k, v in s["obs"]]
         else:
